@@ -4,6 +4,7 @@ import pandas as pd
 
 from mc.explorer import Skip
 from mc.runner import Sub
+from props.common import dense
 
 from formulaic import Formula, ModelSpec, model_matrix
 from formulaic.materializers import PandasMaterializer
@@ -73,13 +74,6 @@ def make_frame(n, a_null, A_null, y_null, index_kind, a_dtype="float64", t_dtype
         df.index = idx
     return df
 
-
-def dense(m):
-    if hasattr(m, "toarray"):
-        return np.asarray(m.toarray(), dtype=float)
-    if isinstance(m, pd.DataFrame):
-        return m.to_numpy(dtype=float)
-    return np.asarray(m, dtype=float)
 
 
 def parts_of(mm):
